@@ -47,8 +47,14 @@ SPEC = {
         "ocaml/c15/drv.ml: the item variation store judge's reference decoders (ItemVariationData row length with LONG_WORDS, "
         "VariationRegionList, ItemVariationStore with Offset32 fields, CFF2 VariationStore data = uint16 length + store), written by hand "
         "after the OpenType 'Font Variations Common Table Formats' and CFF2 chapters; these structures have no Coq model - the judge alone decides",
+        "hand-written model Model/CffSets.v (cvt, CustomCharset with read_range_array, FDSelect, CustomEncoding, function by function "
+        "after src/tables.rs and src/cff.rs) tied to the code by correspondence only (kinds set / setw of harness/src/c15_sets.rs); the "
+        "judge of these kinds in ocaml/c15/drv.ml (covering test, count limits) is written independently of the model",
     ],
     "assumptions": [
+        "charsets: the range formats round-trip for range lists whose last range, and no earlier one, completes n_glyphs - 1 glyphs "
+        "(`covers`; proved to be exactly where read_range_array's loop stops); ranges after that point are written but not read back "
+        "(C15_charset_ranges_excess_dropped), the writer does not check it",
         "buffers are shorter than 2^64 bytes; usize is 64 bits",
         "struct fields hold values of their Rust types (u16 in 0..65535 etc.); bitflags fields hold only defined bits "
         "(MacStyle, FsSelection are built with from_bits_truncate)",
@@ -67,7 +73,7 @@ SPEC = {
         "format 2; exactness and refusal of the length / count fields are stated for ALL values; sub-tables are written into a "
         "fresh buffer (start = 0); Format4Calculator's f64 log2 is Z.log2 on 1..32767",
     ],
-    "rule": "item variation stores, 8% of the cases (harness/src/c15_ivs.rs; judged, no Coq model): ItemVariationData bytes (LONG_WORDS set in half of them, wordDeltaCount 0 / = / > regionIndexCount, itemCount 0 / 1 / 256.., no regions, region indexes at u16 edges, the packed wordDeltaCount overwritten with 0x8000 / 0x8001 / 0x7fff / 0xffff), VariationRegionList bytes (0 axes, 0 regions, reserved bit), ItemVariationStore bytes in the writer's layout and with gaps / sub-tables first / shared sub-tables, 1 in 4 mutated or with trailing bytes -> read -> write (fresh buffer and behind 3 other bytes) -> read -> write; the CFF2 table of the fixture fonts -> read -> write -> the VariationStore data located through the written header and Top DICT. Other kinds: "
+    "rule": "cvt / CFF charsets / FDSelect / custom encodings, 8% of the cases (harness/src/c15_sets.rs): half as bytes -> read -> write -> read (well-formed tables with trailing bytes, wrong format bytes, declared glyph counts off by a few, odd cvt lengths, 1 in 5 mutated), half as values -> write -> read (i16 edges; SIDs at u16 edges; range lists covering n_glyphs - 1 exactly, with an overshooting last range, with nLeft at 255 / 65535; FDSelect format 3 with 65534..70000 ranges written as a run). item variation stores, 8% of the cases (harness/src/c15_ivs.rs; judged, no Coq model): ItemVariationData bytes (LONG_WORDS set in half of them, wordDeltaCount 0 / = / > regionIndexCount, itemCount 0 / 1 / 256.., no regions, region indexes at u16 edges, the packed wordDeltaCount overwritten with 0x8000 / 0x8001 / 0x7fff / 0xffff), VariationRegionList bytes (0 axes, 0 regions, reserved bit), ItemVariationStore bytes in the writer's layout and with gaps / sub-tables first / shared sub-tables, 1 in 4 mutated or with trailing bytes -> read -> write (fresh buffer and behind 3 other bytes) -> read -> write; the CFF2 table of the fixture fonts -> read -> write -> the VariationStore data located through the written header and Top DICT. Other kinds: "
             "cases per kind (see harness/src/bin/c15.rs gen): struct values with every field drawn from {min, max, 0, "
             "near-min, near-max, small, uniform} of its type -> write -> read (9 straight-line layouts, maxp, OS/2 incl. "
             "ill-nested tails, hmtx, loca owned writer incl. odd / > 131070 offsets, owned name tables incl. strings "
